@@ -112,6 +112,12 @@ def gen(rng):
             steps.append(['d', v + '/realct', 0o700])
             steps.append(['l', home + '/ctlink', v + '/realct'])
             custom = home + '/ctlink'
+        if L['vols'] and rng.random() < 0.2 and custom != home + '/ctlink':
+            # --trash-dir spelled through '<symlink>/..': the kernel resolves it to a directory on the volume the link leads to (a
+            # textual normalisation names a directory next to the link, which does not exist): the same spelling is given to all
+            v = rng.choice(L['vols'])
+            steps.append(['l', home + '/stick', L['work'][v]])
+            custom = home + '/stick/../ctdots'
         tdir, top = custom, None
         others = [c for c in [home + '/ct'] + [v + '/ct' for v in L['vols']] if c != custom]
         if others and rng.random() < 0.5:
